@@ -11,6 +11,8 @@ import TlxVerif.Model.C01Erase
 import TlxVerif.Proofs.C01Basic
 import TlxVerif.Proofs.C01Main
 import TlxVerif.Proofs.C01Query
+import TlxVerif.Proofs.C01Copy
+import TlxVerif.Proofs.C01EraseE
 namespace TlxVerif.C01
 
 variable {K V : Type}
@@ -138,16 +140,53 @@ theorem exists_refines (p : Params K) (sw : StrictWeak p.lt) (t : Tree K V) (ht 
     existsKey p t k = some (presentOpt p k (t.toList[lbIdx p.lt k t.toList]?)) :=
   existsKey_spec p sw t ht k
 
--- OPEN: erase_refines — `eraseOne`/`eraseIter` (transliterated in Model/C01Erase.lean, checked against the
---   implementation structurally on every run) remove exactly the first equivalent entry / the entry at the
---   iterator; not yet proved.
-def erase_refines_statement (p : Params K) : Prop :=
-  ∀ (t : Tree K V) (k : K), TreeInv p t →
-    ∃ res, eraseOne p t k = some res ∧ TreeInv p res.tree ∧
-      res.tree.toList =
-        (match t.toList[lbIdx p.lt k t.toList]? with
-         | some e => if p.eqv k e.1 then t.toList.eraseIdx (lbIdx p.lt k t.toList) else t.toList
-         | none => t.toList)
+/-! ## erase -/
+
+/-- `erase_one(key)` (descent, the five-way underflow table, merge_*, shift_left_*, shift_right_*, root
+collapse): defined on every state satisfying the invariant; it erases iff the entry at the lower bound is
+equivalent to the key, and then exactly that entry — the abstract container's `erase_one`.
+(`Spec.eraseOne`; the resulting tree again satisfies the shape invariant and is ordered, see C02.) -/
+theorem erase_one_refines (p : Params K) (pv : p.Valid) (sw : StrictWeak p.lt) (t : Tree K V) (ht : TreeInv p t) (k : K) :
+    ∃ res, eraseOne p t k = some res ∧ (res.tree.toList, res.erased) = Spec.eraseOne p t.toList k := by
+  obtain ⟨res, h1, h2, _⟩ := eraseOne_spec p pv sw t ht k
+  exact ⟨res, h1, h2⟩
+
+/-- `erase(iterator)`: defined on every well-shaped tree; when it erases, the entry sequence loses exactly
+the entry at the iterator's rank `rankOf chain (leaf, slot)` and nothing else moves -/
+theorem erase_iter_refines_partial (p : Params K) (pv : p.Valid) (t : Tree K V) (ht : TreeInv p t) (leaf slot : Nat)
+    (e : K × V) (he : deref t.leafChain (leaf, slot) = some e) :
+    ∃ res, eraseIter p t leaf slot = some res ∧
+      (res.erased = true → res.tree.toList = t.toList.eraseIdx (rankOf t.leafChain (some (leaf, slot)))) := by
+  obtain ⟨res, hres, _, hyes⟩ := eraseTop_ok p pv (.iter leaf slot e.1) t ht.1
+  refine ⟨res, by simp only [eraseIter, he, hres], ?_⟩
+  intro herased
+  obtain ⟨r, i, hr, hi, hfl, hhit⟩ := (hyes herased).flat
+  simp only [HitAt, Nat.sub_zero] at hhit
+  obtain ⟨_, lf, h1, h2, h3⟩ := hhit
+  rw [hfl, h3]
+  simp [Tree.leafChain, hr]
+
+-- OPEN: erase_iter_refines — for a dereferenceable iterator `erase(iterator)` always finds its leaf
+--   (`res.erased = true`): the depth-first search that starts at `find_lower(iter.key())` and walks right
+--   reaches the leaf; needs the order invariant (completeness of the search loop), not yet proved.
+def erase_iter_refines_statement (p : Params K) : Prop :=
+  ∀ (t : Tree K V) (leaf slot : Nat) (e : K × V), TreeInv p t → deref t.leafChain (leaf, slot) = some e →
+    ∃ res, eraseIter p t leaf slot = some res ∧ res.erased = true ∧
+      res.tree.toList = t.toList.eraseIdx (rankOf t.leafChain (some (leaf, slot)))
+
+/-! ## copy, assignment, clear -/
+
+/-- copy construction and `operator=` give the target the source's entry sequence (and keep the invariant) -/
+theorem copy_assign_refine (p : Params K) (pv : p.Valid) (t o : Tree K V) (ht : TreeInv p t) (ho : TreeInv p o) :
+    (copyCtor o).1.toList = o.toList ∧ TreeInv p (copyCtor o).1 ∧
+    (assign t o).1.toList = o.toList ∧ TreeInv p (assign t o).1 ∧ (clear t).1.toList = [] := by
+  have h1 := copyCtor_spec p pv o ho
+  have h2 := assign_spec p pv t o ht ho
+  refine ⟨h1.2.1, h1.1, h2.2.1, h2.1, ?_⟩
+  unfold clear
+  cases hroot : t.root with
+  | none => simp [Tree.toList, hroot]
+  | some r => simp [Tree.toList]
 
 /-! ## non-vacuity -/
 
